@@ -359,11 +359,21 @@ fn reason_table(k: &AckKind) -> &'static [u8] {
 
 impl<'a> Sim<'a> {
     fn fail(&mut self, sig: impl Into<String>, msg: impl Into<String>) {
+        let sig: String = sig.into();
+        let msg: String = msg.into();
+        // how a publish completes is C06's claim as much as C05's ("QoS 1 completes on its PUBACK,
+        // QoS 2 ... on the PUBCOMP", "reason >= 0x80 makes publish() fail with the matching error")
+        let alias = ["C05/wrong-completion/pub", "C05/not-completed/pub", "C05/completed-without-own-ack/pub"]
+            .iter()
+            .find(|p| sig.starts_with(**p))
+            .map(|_| format!("C06/outcome/{}", &sig[4..]));
         if self.failures.len() < 64 {
-            self.failures.push(Failure {
-                sig: sig.into(),
-                msg: msg.into(),
-            });
+            self.failures.push(Failure { sig, msg: msg.clone() });
+        }
+        if let Some(a) = alias {
+            if self.failures.len() < 64 && !self.failures.iter().any(|f| f.sig == a) {
+                self.failures.push(Failure { sig: a, msg });
+            }
         }
     }
 
